@@ -1,4 +1,5 @@
 import P9Model.Session.Frame
+import P9Model.Session.BindOnSuccess
 /-!
 # C04 — Session state machine: fid binding, open state and mode checks
 
@@ -230,5 +231,16 @@ theorem stop_unbinds_all (s : State) (conn : Nat) :
 /-! ### non-vacuity -/
 example : Unbound 3 { st := {}, tape := [] } := by unfold Unbound; decide
 example : (handle {} 0 120 { vals := [.atom (.int 3)] } []).reply = rerr EBADF := by decide
+
+/-! ### a fid is bound only when the binding request succeeds -/
+
+/-- `BOS m`: if `m` answers Rlerror (or ends in a panic, answered EFAULT) the fid table – of every
+connection – is exactly as before.  For **every** oracle tape: any backend error or panic at any
+step, any fid state, any names. -/
+theorem walk_binds_only_on_success (m : Msg) (g : Bool) : BOS (hTwalkGen m g) := Session.walk_binds_only_on_success m g
+theorem attach_binds_only_on_success (m : Msg) : BOS (hTattach m) := Session.attach_binds_only_on_success m
+theorem xattrwalk_binds_only_on_success (m : Msg) : BOS (hTxattrwalk m) := Session.xattrwalk_binds_only_on_success m
+theorem create_rebinds_only_on_success (m : Msg) (uid rtyp : Nat) (h : rtyp ≠ 7) : BOS (hCreate m uid rtyp) :=
+  Session.create_rebinds_only_on_success m uid rtyp h
 
 end P9.C04
